@@ -108,10 +108,66 @@ def c11_roundtrip(E, formats=FORMATS):
         cfg.bounds = old
 
 
+def c11_after_history(E, k=1):
+    """a model that went through a history of public operations is saved and loaded: same model again (histories
+    that already broke C01/C02 on the original are not continued)"""
+    from vlib.ops import OPS, State, invariants, lp_equiv
+    from vlib.vsym import Probe
+    env.for_path(E)
+    S = State()
+    m = base_model(E, sym_coef=False)
+    names = [n for n in OPS if n not in ("copy", "merge", "detached_edit", "cons_vars")]
+    for i in range(k):
+        try:
+            OPS[E.pick("pre_op%d" % i, names)][0](E, m, S)
+        except Exception:
+            return
+    pr = Probe(E)
+    try:
+        invariants(pr, m, S, "pre")
+        lp_equiv(pr, m, S, "pre")
+    except Exception:
+        return
+    if pr.failed or getattr(S, "asym_ok", None):
+        return      # objectives outside c*(forward-reverse) are not part of the dict format
+    fmt = E.pick("format", ["dict", "json-string", "yaml-string", "pickle"])
+    sort = E.flag("sort")
+    E.note(format=fmt, sort=sort, ops=[l[0] + ("!" + l[2] if l[2] else "") for l in S.log])
+    skip = ("groups", "group", "index_ok") if fmt != "pickle" else ()
+    a = observe(m)
+    try:
+        m2 = roundtrip(fmt, m, sort)
+    except Exception as e:
+        E.prove(False, "loading-never-fails-for-a-saved-model", exc=type(e).__name__, msg=str(e)[:200], what=fmt)
+        return
+    b = observe(m2)
+    for o in (a, b):
+        o["objective"].pop("direction", None)          # separate obligation / known finding in c11_roundtrip
+        o["lp"]["objective"].pop("direction", None)
+        o["contexts"] = 0
+        if fmt != "pickle":
+            for g in o.get("gene", {}).values():
+                if isinstance(g, dict):
+                    g.pop("functional", None)     # the knocked-out flag is not among the attributes C11 lists (nor in the schema)
+    for o, mod in ((a, m), (b, m2)):
+        for d in o.get("met", {}).values():
+            if isinstance(d, dict) and isinstance(d.get("reactions"), list):
+                d["reactions"] = [r for r in d["reactions"] if r in mod.reactions]     # detached reactions the user holds
+    same(E, a, b, "roundtrip=same-model", ignore_order=sort, skip=skip, what=fmt)
+
+
+def c11_after_history2(E):
+    return c11_after_history(E, k=2)
+
+
 HARNESSES = [
     H("c11_roundtrip", c11_roundtrip, quick=dict(max_paths=40000, time_budget=80), thorough=dict(max_paths=400000, time_budget=500),
       witness_every=40,
       bounds="base model; R1 with symbolic coefficients [1/4,4], bounds in [-2000,2000] or infinite by choice, symbolic objective "
              "coefficient in [-5,5]; direction max/min; Configuration().bounds (-1000,1000)/(-10,10); charge/formula tables; sort "
              "on/off; formats dict, JSON and YAML (string and file-handle variants), pickle, deepcopy"),
+    H("c11_after_history", c11_after_history, tiers=("thorough",), thorough=dict(max_paths=300000, time_budget=250), witness_every=60,
+      bounds="base model after one operation of the edit alphabet (every argument shape); dict / JSON / YAML / pickle; sort on/off"),
+    H("c11_after_history2", c11_after_history2, tiers=("thorough",), thorough=dict(max_paths=3000000, time_budget=400),
+      witness_every=400, bounds="base model after two operations of the edit alphabet (sampled)"),
 ]
